@@ -211,13 +211,22 @@ fn sc_constant<T: BT>(env: &Env, rep: &mut Report, name: &str) {
         let v = T::gen_val(&mut p, k);
         let want = v.show();
         let mut rt = base_runtime();
+        let v2 = v.clone();
         rt.add(Constant::new("K", "", v, location!()).unwrap()).unwrap();
-        let src = format!("fn main() -> {t} {{ K }}\nfn twice() -> {t} {{ let a = K; K }}\n", t = d.roto());
+        // a registered function without parameters handing out the same value
+        rt.add(Function::new("give", "", vec![], move || -> T { v2.clone() }, location!()).unwrap()).unwrap();
+        let src = format!("fn main() -> {t} {{ K }}\nfn twice() -> {t} {{ let a = K; K }}\nfn given() -> {t} {{ give() }}\n", t = d.roto());
         let Some(mut pkg) = compile_noctx(&rt, &src, rep, name) else { return };
         let f = get_fn!(pkg, fn() -> T, rep, name, src);
         let got = f.call().show();
         let got2 = f.call().show();
-        rep.evaluations += 2;
+        let got3 = match pkg.get_function::<fn() -> T>("twice") { Ok(f) => f.call().show(), Err(e) => format!("{e:?}") };
+        let got4 = match pkg.get_function::<fn() -> T>("given") { Ok(f) => f.call().show(), Err(e) => format!("{e:?}") };
+        rep.evaluations += 4;
+        if got3 != want || got4 != want {
+            violation(rep, name, &[d.clone()], 1, json!({"script": src, "constant": want, "twice": got3, "given": got4, "round": k}));
+            return;
+        }
         if got != want || got2 != want {
             violation(rep, name, &[d.clone()], 1, json!({"script": src, "constant": want, "returned": [got, got2], "round": k}));
             return;
@@ -452,6 +461,10 @@ fn tag_z0<T: BT>(r: Val<Z0>, x: T, n: u16) -> T {
     log(n.show());
     x
 }
+fn consume<T: BT>(x: T, n: u16) {
+    log(x.show());
+    log(n.show());
+}
 fn make_static<T: BT>(x: T, n: u16) -> T {
     log(x.show());
     log(n.show());
@@ -470,8 +483,10 @@ fn sc_method<T: BT>(env: &Env, rep: &mut Report, name: &str) {
     let mut i2 = Impl::new::<Val<Z0>>(location!());
     i2.add(Function::new("tag", "", vec!["r", "x", "n"], tag_z0::<T>, location!()).unwrap());
     rt.add(i2).unwrap();
+    rt.add(Function::new("consume", "", vec!["x", "n"], consume::<T>, location!()).unwrap()).unwrap();
     let src = format!(
-        "fn m1(r: W4, x: {t}) -> {t} {{ r.tag(x) }}\nfn m2(x: {t}, r: Z0, n: u16) -> {t} {{ r.tag(x, n) }}\nfn m3(n: u16, x: {t}) -> {t} {{ W4.make(x, n) }}\n"
+        "fn m1(r: W4, x: {t}) -> {t} {{ r.tag(x) }}\nfn m2(x: {t}, r: Z0, n: u16) -> {t} {{ r.tag(x, n) }}\nfn m3(n: u16, x: {t}) -> {t} {{ W4.make(x, n) }}\n\
+         fn m4(n: u16, x: {t}) -> {t} {{ consume(x, n); W4.make(x, n) }}\n"
     );
     let Some(mut pkg) = compile_noctx(&rt, &src, rep, name) else { return };
     macro_rules! g { ($n:literal, $f:ty) => { match pkg.get_function::<$f>($n) { Ok(f) => f, Err(e) => {
@@ -479,6 +494,7 @@ fn sc_method<T: BT>(env: &Env, rep: &mut Report, name: &str) {
     let m1 = g!("m1", fn(Val<W4>, T) -> T);
     let m2 = g!("m2", fn(T, Val<Z0>, u16) -> T);
     let m3 = g!("m3", fn(u16, T) -> T);
+    let m4 = g!("m4", fn(u16, T) -> T);
     let mut p = Prng::for_case(env.seed, h64(name));
     for k in 0..env.rounds {
         let (r, x, n) = (Val::<W4>::gen_val(&mut p, k), T::gen_val(&mut p, k + 1), u16::gen_val(&mut p, k + 2));
@@ -496,7 +512,12 @@ fn sc_method<T: BT>(env: &Env, rep: &mut Report, name: &str) {
         let got = m3.call(n, x.clone()).show();
         let lg = take_log();
         if got != xs || lg != vec![xs.clone(), ns.clone()] { bad.push(json!({"fn": "m3", "returned": got, "method_saw": lg})); }
-        rep.evaluations += 3;
+        // a registered function returning `()` consumes a copy first
+        clear_log();
+        let got = m4.call(n, x.clone()).show();
+        let lg = take_log();
+        if got != xs || lg != vec![xs.clone(), ns.clone(), xs.clone(), ns.clone()] { bad.push(json!({"fn": "m4", "returned": got, "functions_saw": lg})); }
+        rep.evaluations += 4;
         if let Some(b) = bad.first() {
             let mut input = b.clone();
             input["script"] = json!(src);
